@@ -14,12 +14,35 @@ ALPHABET = ["0", "1", "9", ".", "e", "E", "+", "-", "*", "/", "^", "%", ",", "("
 # symbols with distinct lexer behaviour (one representative per lexer class / continuation role)
 ALPHABET24 = ["0", "9", ".", "e", "+", "-", "*", "/", "^", "%", ",", "(", ")", "{", "}", "°", "m", "t", "o",
               "é", " ", "　", "_", "x"]
+def utf8_classes():
+    """Two characters per possible UTF-8 leading byte (0xC2..0xF4): the lowest and the highest code point that starts with it.
+    A decoder (or a hand-written width table) that is wrong for ONE leading byte - 0xE0, whose second byte starts at 0xA0, 0xED,
+    whose second byte ends at 0x9F, 0xF0 / 0xF4 - is wrong for a whole script (U+0800..U+0FFF: Devanagari ... Thai, seed C12-g)
+    that no list of 'usual' multi-byte samples contains."""
+    out = []
+    for lead in range(0xC2, 0xF5):
+        if lead < 0xE0:
+            lo, hi = bytes([lead, 0x80]), bytes([lead, 0xBF])
+        elif lead < 0xF0:
+            lo = bytes([lead, 0xA0 if lead == 0xE0 else 0x80, 0x80])
+            hi = bytes([lead, 0x9F if lead == 0xED else 0xBF, 0xBF])
+        else:
+            lo = bytes([lead, 0x90 if lead == 0xF0 else 0x80, 0x80, 0x80])
+            hi = bytes([lead, 0x8F if lead == 0xF4 else 0xBF, 0xBF, 0xBF])
+        out += [lo.decode("utf-8"), hi.decode("utf-8")]
+    return out
+
+ENC = utf8_classes()
+# ... with a handful of ASCII symbols around them (number, word, blank, brackets, operator)
+ALPHABET_ENC = ENC + ["1", ".", "m", " ", "(", ")", "{", "}", "+", "°"]
+
 RULE = ("in-process monitor around the real Lexer and Parser::parse_root: lexer stops within len(s) tokens, every token "
         "non-empty, token ends on char boundaries and sum to len(s); the tree's leaves equal the token sequence and tile "
         "[0,len) exactly once in order; every inner node spans exactly its contiguous children. Exhaustive over all strings "
         "up to the stated length over the 48-symbol alphabet (and 24 class representatives one symbol longer), plus random "
         "longer strings, 30% of them pumped (prefix + pattern^k + middle + closing^k + suffix, patterns of 1-5 symbols or call/number/unit fragments, "
-        "up to hundreds of repetitions). Every fourth input is preceded, on the same thread, by str::parse::<Compound>, str::parse::<Rational> "
+        "up to hundreds of repetitions). UTF-8 encoding classes: a second alphabet with the lowest and the highest code point of every possible leading byte "
+        "0xC2..0xF4 (102 characters) plus ten ASCII symbols, exhaustive up to length 2 (3 in the thorough tier) and in random/pumped strings. Every fourth input is preceded, on the same thread, by str::parse::<Compound>, str::parse::<Rational> "
         "and Parser::parse_unit of the previous input (nothing may leak from one parse into the next). non-trivial = distinct (token-kind sequence, tree shape) classes observed - counted by hash inside the monitor")
 
 def sig_of(what):
@@ -35,10 +58,14 @@ def run(tier, seed):
         plans.append(("dbg", ALPHABET, [1, 2, 3, 4], None))
         plans.append(("rel", ALPHABET, [1, 2, 3, 4], {"min": 5, "max": 200, "count": 300000}))
         plans.append(("dbg", ALPHABET, [], {"min": 5, "max": 120, "count": 60000}))
+        plans.append(("dbg", ALPHABET_ENC, [1, 2], {"min": 3, "max": 40, "count": 40000}))
+        plans.append(("rel", ALPHABET_ENC, [1, 2], {"min": 3, "max": 120, "count": 100000}))
     else:
         plans.append(("dbg", ALPHABET, [1, 2, 3, 4], {"min": 5, "max": 200, "count": 500000}))
         plans.append(("rel", ALPHABET, [1, 2, 3, 4, 5], {"min": 6, "max": 400, "count": 4000000}))
         plans.append(("rel", ALPHABET24, [6], None))
+        plans.append(("dbg", ALPHABET_ENC, [1, 2], {"min": 3, "max": 120, "count": 300000}))
+        plans.append(("rel", ALPHABET_ENC, [1, 2, 3], {"min": 4, "max": 300, "count": 1000000}))
     complete = {}
     shapes = 0
     for kind, alpha, lens, rnd in plans:
@@ -111,7 +138,8 @@ def run(tier, seed):
     acc.nontrivial = set(range(shapes))
     return finish(PID, tier, seed, "exploration", acc, RULE, t0,
                   assumptions=["syntree's node spans and walk order are as documented", "the 48 symbols cover the lexer's character classes (listed in DESIGN.md)"],
-                  extra={"completed_exhaustive_spaces": complete, "alphabet": ALPHABET, "alphabet24": ALPHABET24},
+                  extra={"completed_exhaustive_spaces": complete, "alphabet": ALPHABET, "alphabet24": ALPHABET24,
+                         "alphabet_utf8_classes": ["U+%04X" % ord(c) for c in ENC]},
                   exhaustive=True, min_eval=1000)
 
 def absorb(acc, rep, kind, label):
